@@ -151,6 +151,11 @@ func (c *CacheCounters) Metrics() *updog.CacheMetrics {
 type OpenCfg struct {
 	Preload  bool
 	CacheCap int64
+	// Twice: every selected option is passed twice (the same option value
+	// again); a repeated option must not change anything.
+	Twice bool
+	// Via: the file is opened under another name for it (see Alias).
+	Via int
 }
 
 func (o OpenCfg) String() string {
@@ -160,6 +165,12 @@ func (o OpenCfg) String() string {
 	}
 	if o.CacheCap >= 0 {
 		s += fmt.Sprintf("+lru(%d)", o.CacheCap)
+	}
+	if o.Twice {
+		s += " (each option given twice)"
+	}
+	if o.Via != ViaPlain {
+		s += " via " + ViaName[o.Via]
 	}
 	return s
 }
@@ -174,6 +185,16 @@ func Open(path string, o OpenCfg) (idx *updog.Index, cc *CacheCounters, err erro
 		if o.CacheCap >= 0 {
 			cc = &CacheCounters{}
 			opts = append(opts, updog.WithCache(updog.NewLRUCache(uint64(o.CacheCap), updog.WithCacheMetrics(cc.Metrics()))))
+		}
+		if o.Twice {
+			opts = append(opts, opts...)
+		}
+		if o.Via != ViaPlain {
+			alias, _, aerr := Alias(path, o.Via)
+			if aerr != nil {
+				panic("INFRA: cannot create a path alias: " + aerr.Error())
+			}
+			path = alias
 		}
 		var e error
 		idx, e = updog.OpenIndex(path, opts...)
@@ -358,4 +379,54 @@ func sameList(a, b []updog.Expression) bool {
 		}
 	}
 	return true
+}
+
+// Path aliases: ways of naming an existing file other than by its plain path.
+const (
+	ViaPlain   = iota
+	ViaRelLink // a relative symbolic link beside the file
+	ViaAbsLink // an absolute symbolic link beside the file
+	ViaDotDot  // dir/../dir/file
+	ViaLinkUp  // other/hop/../file where hop is a symbolic link to dir/sub: the
+	// operating system resolves it to dir/file, cleaning the text gives other/file
+	NVia
+)
+
+var ViaName = []string{"plain path", "relative symlink", "absolute symlink", "dir/../dir/file", "symlinked directory followed by .."}
+
+// Alias returns a name of kind via for the file real (which need not exist
+// yet), creating the links it needs; lexical is what a purely textual
+// clean-up of the alias would name (only different from real for ViaLinkUp).
+// Calling it again with the same arguments returns the same name.
+func Alias(real string, via int) (alias, lexical string, err error) {
+	dir, base := filepath.Dir(real), filepath.Base(real)
+	mk := func(target, link string) error {
+		if _, err := os.Lstat(link); err == nil {
+			return nil
+		}
+		return os.Symlink(target, link)
+	}
+	switch via {
+	case ViaRelLink:
+		alias = real + ".rel-link"
+		return alias, real, mk(base, alias)
+	case ViaAbsLink:
+		alias = real + ".abs-link"
+		return alias, real, mk(real, alias)
+	case ViaDotDot:
+		return filepath.Dir(dir) + string(filepath.Separator) + filepath.Base(dir) + "/../" + filepath.Base(dir) + "/" + base, real, nil
+	case ViaLinkUp:
+		sub, other := filepath.Join(dir, "alias-sub"), filepath.Join(dir, "alias-other")
+		if err := os.MkdirAll(sub, 0o755); err != nil {
+			return "", "", err
+		}
+		if err := os.MkdirAll(other, 0o755); err != nil {
+			return "", "", err
+		}
+		if err := mk(sub, filepath.Join(other, "hop")); err != nil {
+			return "", "", err
+		}
+		return other + "/hop/../" + base, filepath.Join(other, base), nil
+	}
+	return real, real, nil
 }
